@@ -23,6 +23,7 @@ type Content struct {
 	Docs  []DocOut            `json:"docs"`
 	ByID  map[string][]string `json:"by_id,omitempty"`
 	key   string
+	queried map[string]bool // ids looked up by term (nil: none)
 }
 
 func (c *Content) UIDs() []string {
@@ -93,7 +94,9 @@ func ReadAll(r *bluge.Reader, ids []string) (*Content, error) {
 	sort.SliceStable(c.Docs, func(i, j int) bool { return c.Docs[i].UID < c.Docs[j].UID })
 	if ids != nil {
 		c.ByID = map[string][]string{}
+		c.queried = map[string]bool{}
 		for _, id := range ids {
+			c.queried[id] = true
 			ds, err := collect(r, bluge.NewTermQuery(id).SetField("_id"))
 			if err != nil {
 				return nil, fmt.Errorf("term _id:%s: %w", id, err)
@@ -140,6 +143,13 @@ func CompareModel(c *Content, m *Model, stored map[string]map[string]string) str
 	}
 	if c.ByID != nil {
 		exp := m.ByID()
+		if c.queried != nil {
+			for id := range exp {
+				if !c.queried[id] {
+					delete(exp, id) // not looked up by term in this read
+				}
+			}
+		}
 		if len(exp) != len(c.ByID) {
 			return fmt.Sprintf("lookup by _id finds ids %v, abstract index has %v", keys(c.ByID), keys(exp))
 		}
